@@ -228,6 +228,25 @@ func (ex *Exec) eval(env *Env, e Expr) Val {
 			bs = append(bs, b)
 			vars[qv.Name] = scalar(t, b)
 		}
+		if x.Lambda {
+			if len(bs) != 1 {
+				sfail("lambda takes one variable")
+			}
+			bv := ex.eval(env.with(vars), x.Body)
+			if bv.Const != nil {
+				bv = defaultType(bv)
+			}
+			kt := ex.ld.resolveType(env.pkg, x.Vars[0].T)
+			r := Val{T: &SpecMap{K: kt, V: bv.T}}
+			var eqs []*Term
+			for _, leaf := range bv.L {
+				a := FreshVar("lam", ArrS(bs[0].S, leaf.S))
+				r.L = append(r.L, a)
+				eqs = append(eqs, Eq(Select(a, bs[0]), leaf))
+			}
+			ex.assume(env.st, Forall(bs, And(eqs...)))
+			return r
+		}
 		body := ex.evalBool(env.with(vars), x.Body)
 		if x.Forall {
 			return scalar(types.Typ[types.Bool], Forall(bs, body))
